@@ -107,10 +107,10 @@ function genSpec(seed, idx) {
       const r = rng.below(10);
       if (r < 5 || (r >= 8 && !structs.length)) {
         const o = rng.pick(opaques);
-        params.push({ name: "p" + p, kind: "opaque", ty: o.name, lt: outerLt(), args: o.lts.map(() => anyLt()), mut: rng.chance(1, 5) });
+        params.push({ name: "p" + p, kind: "opaque", ty: o.name, lt: outerLt(), args: o.lts.map(() => (rng.chance(1, 10) ? "static" : anyLt())), mut: rng.chance(1, 5) });
       } else if (r < 6) {
         const o = rng.pick(opaques);
-        params.push({ name: "p" + p, kind: "optopaque", ty: o.name, lt: outerLt(), args: o.lts.map(() => anyLt()) });
+        params.push({ name: "p" + p, kind: "optopaque", ty: o.name, lt: outerLt(), args: o.lts.map(() => (rng.chance(1, 10) ? "static" : anyLt())) });
       } else if (r < 8) {
         params.push({ name: "p" + p, kind: "slice", enc: rng.pick(["DiplomatStr", "str", "DiplomatStr16", "u8s", "u8smut"]), lt: outerLt() });
       } else {
@@ -322,6 +322,8 @@ function catalogueSpec() {
   // a field `&'r T<'s>` whose reference slot and generic slot are different slots of the struct, declared in either order
   structs.push({ name: "S2", lts: ["a", "b"], bounds: [["b", "a"]], fields: [{ name: "f0", kind: "opaque", ty: "O1", lt: "a", args: ["b"] }] });
   structs.push({ name: "S3", lts: ["a", "b"], bounds: [["a", "b"]], fields: [{ name: "f0", kind: "opaque", ty: "O1", lt: "b", args: ["a"] }] });
+  // two slice-carrying slots, the narrower-slot field first
+  structs.push({ name: "S4", lts: ["a", "b"], bounds: [], fields: [{ name: "f0", kind: "slice", enc: "DiplomatStr", lt: "a", opt: false }, { name: "f1", kind: "slice", enc: "str", lt: "b", opt: false }] });
   const outs = [{ name: "R0", lts: ["a", "b"], bounds: [], out: true, fields: [{ name: "f0", kind: "opaque", ty: "O0", lt: "b", args: [], opt: false }, { name: "f1", kind: "opaque", ty: "O0", lt: "a", args: [], opt: false }] }];
   const methods = [
     // struct slots instantiated with one lifetime
@@ -352,6 +354,12 @@ function catalogueSpec() {
     // the error arm of a Result is an opaque that borrows from a slice argument (same and different lifetime as the Ok arm)
     M("O0", "m15", { lts: ["a"], params: [sl("p0", "a")], ret: { kind: "reserr", ty: "O1", lt: null, args: ["a"], err: { ty: "O1", args: ["a"] } } }),
     M("O0", "m16", { lts: ["a", "b"], params: [sl("p0", "a"), sl("p1", "b", "str")], ret: { kind: "reserr", ty: "O1", lt: null, args: ["a"], err: { ty: "O1", args: ["b"] } } }),
+    // slices inside a struct argument, handed on to the fields of a returned struct through different edge arrays
+    M("O0", "m17", { lts: ["a", "b"], bounds: [["b", "a"]], params: [{ name: "p0", kind: "struct", ty: "S4", args: ["a", "b"] }], ret: { kind: "struct", ty: "R0", lt: null, args: ["a", "b"] } }),
+    M("O0", "m18", { lts: ["a", "b"], bounds: [["a", "b"]], params: [{ name: "p0", kind: "struct", ty: "S4", args: ["a", "b"] }], ret: { kind: "struct", ty: "R0", lt: null, args: ["a", "b"] } }),
+    // an opaque parameter with a 'static argument before / after the lending one, plain and optional
+    M("O0", "m19", { lts: ["a", "b"], params: [op("p0", "O2", "b", ["static", "a"])], ret: box("O1", ["a"]) }),
+    M("O0", "m20", { lts: ["a", "b"], params: [{ name: "p0", kind: "optopaque", ty: "O2", lt: "b", args: ["a", "static"] }, { name: "p1", kind: "optopaque", ty: "O2", lt: "b", args: ["static", "a"] }], ret: box("O1", ["a"]) }),
     M("O2", "m12", { lts: ["a"], implLts: ["s0", "s1"], self: { lt: "a" }, params: [{ name: "p0", kind: "optopaque", ty: "O0", lt: "a", args: [] }], ret: { kind: "optref", ty: "O0", lt: "a", args: [] } }),
   ];
   return { seed: 0, idx: -1, catalogue: true, opaques, structs, outs, methods };
